@@ -12,6 +12,7 @@ mod mc;
 mod points;
 mod toy;
 mod toymodel;
+mod zgroup;
 
 use infra::{Ctx, Tier};
 
